@@ -4,6 +4,8 @@ from fractions import Fraction
 from vf import aave
 from vf.aave import INF, Ref, close, fr
 from vf.engine import Ctx, derive_seed, replay_body, run_given
+from decimal import Decimal
+
 from vf.gen.aave import st_case
 
 PROPERTY = "C12"
@@ -22,7 +24,7 @@ ASSUMPTIONS = [
     "which collateral / debt pair a step picks is not prescribed by the property; only the arithmetic of the step is",
 ]
 MIN_NONTRIVIAL = {"quick": 400, "thorough": 8000}
-REQUIRED_LABELS = ["liquidated", "not_liquidated.healthy", "cf.half", "cf.full", "seize.capped", "seize.partial", "steps.2+", "exit.healthy", "exit.no_collateral_or_all_visited", "same_token_step"]
+REQUIRED_LABELS = ["liquidated", "not_liquidated.healthy", "cf.half", "cf.full", "seize.capped", "seize.partial", "steps.2+", "exit.healthy", "exit.no_collateral_or_all_visited", "same_token_step", "hf.exactly_0.95"]
 
 EPS = Fraction(1, 10**24)
 DUST = Fraction(3, 10**18)
@@ -102,6 +104,10 @@ class Obs(aave.Observer):
             self.labels.add("cf.half" if cf != 1 else "cf.full")
             ctx.check(repaid <= cf * debt0 * (1 + EPS) + DUST * w.bi(d), f"{sig}.close_factor", lambda: f"step {k}: repaid {float(repaid)} of {float(debt0)} {d} with health factor {float(rp.hf)} (close factor {cf})", case)
             bonus = Fraction(w.par[c]["bonus"], 10000)
+            # (an upper bound, as the statement says: the unchanged code itself repays less than the close factor allows when
+            # the debt token is worth less than a dollar - it passes the debt's dollar value as the token amount to cover)
+            if rp.hf == Fraction(95, 100):
+                self.labels.add("hf.exactly_0.95")
             exp_seize = repaid * w.px(d) / w.px(c) * (1 + bonus)
             tol = EPS * exp_seize + DUST * (w.li(c) + w.bi(d) * w.px(d) / w.px(c))
             capped = abs(seized - coll0) <= DUST * w.li(c)
@@ -135,6 +141,35 @@ class Obs(aave.Observer):
                 ctx.check(no_coll or all_visited, "exit", lambda: f"update() ended with health factor {float(rF.hf)}, collateral left, debts {sorted(r0.bor_amt)} visited {visited}", case)
 
 
+def st_exact_hf():
+    """Portfolios whose health factor is an exact decimal (indices 1, one collateral of c tokens at price p, a debt of
+    c x LT / 10 units of a 1-dollar token: HF = p / 1000), re-priced to 0.95, 1 and their neighbours."""
+    from hypothesis import strategies as st
+
+    @st.composite
+    def build(draw):
+        lt = draw(st.sampled_from([7500, 8000, 8250, 9000]))
+        tokens = [{"name": "WETH", "dec": 18, "ltv": lt - 500, "lt": lt, "bonus": draw(st.sampled_from([500, 750, 1000])), "coll": True, "borrow": True},
+                  {"name": "DAI", "dec": 18, "ltv": 7000, "lt": 7500, "bonus": 500, "coll": True, "borrow": True},
+                  {"name": "USDT", "dec": 6, "ltv": 0, "lt": 0, "bonus": 500, "coll": False, "borrow": True}]
+        c = draw(st.sampled_from(["4", "10", "2.5"]))
+        two = draw(st.booleans())
+        debt = Decimal(c) * lt / 10  # in dollars
+        rows = {t["name"]: {"li": "1", "bi": "1", "lr": "0", "br": "0"} for t in tokens}
+        ops = [["supply", "WETH", ["abs", c], True]]
+        if two:
+            ops += [["borrow", "DAI", ["abs", format(debt * Decimal("0.25"), "f")]], ["borrow", "USDT", ["abs", format(debt * Decimal("0.75"), "f")]]]
+        else:
+            ops += [["borrow", "DAI", ["abs", format(debt, "f")]]]
+        p1 = draw(st.sampled_from(["950", "950", "950.001", "949.999", "1000", "999.999", "900", "990"]))
+        bars = [{"rows": rows, "prices": {"WETH": "4000", "DAI": "1", "USDT": "1"}, "ops": ops}, {"rows": rows, "prices": {"WETH": p1, "DAI": "1", "USDT": "1"}, "ops": []}]
+        if draw(st.booleans()):
+            bars.append({"rows": rows, "prices": {"WETH": draw(st.sampled_from(["950", "900", "1000"])), "DAI": "1", "USDT": "1"}, "ops": []})
+        return {"tokens": tokens, "wallet": {"WETH": "20", "DAI": "0", "USDT": "0"}, "bars": bars}
+
+    return build()
+
+
 def body(case, ctx: Ctx):
     obs = Obs(ctx, case)
     w = aave.World(case, obs)
@@ -149,7 +184,9 @@ def shards(tier, seed):
 
 def run_shard(spec):
     ctx = Ctx(PROPERTY, spec["sub"])
-    v = run_given(ctx, st_case("liq", max_bars=7, max_ops=4), body, spec["n"], spec["seed"])
+    from hypothesis import strategies as st
+
+    v = run_given(ctx, st.one_of(*[st_case("liq", max_bars=7, max_ops=4)] * 7, st_exact_hf()), body, spec["n"], spec["seed"])
     return ctx.result(v)
 
 
